@@ -37,7 +37,7 @@ Moduli ==
      <<"large7", Dense(55, Seed + 4, 37)>>, <<"large12-mersenne", Sub(PowerOfTwo(607), One)>>,
      <<"large25", Dense(200, Seed + 5, 129)>>, <<"large40", Dense(317, Seed + 6, 3)>> >>
 NMod == IF Big THEN Len(Moduli) ELSE Len(Moduli) - 2
-Ops == <<"reduce", "add", "sub", "mul", "div", "neg", "dbl", "sqr", "pow", "inv", "mix">>
+Ops == <<"reduce", "add", "sub", "mul", "div", "neg", "dbl", "sqr", "pow", "inv", "mix", "clonefrom">>
 NShapes == 17
 
 VARIABLES phase, p1, p2, p3
